@@ -65,7 +65,7 @@ fn run_ping(scn: &Value) {
             if el.dispatch(Some(Duration::ZERO), &mut cbs).is_err() {
                 errs += 1;
             }
-            if t0.elapsed() > Duration::from_secs(20) {
+            if t0.elapsed() > Duration::from_secs(60) {
                 timed_out = 1;
                 break 'rounds;
             }
@@ -165,7 +165,7 @@ fn run_exec(scn: &Value) {
             if el.dispatch(Some(Duration::ZERO), &mut results).is_err() {
                 errs += 1;
             }
-            if t0.elapsed() > Duration::from_secs(20) {
+            if t0.elapsed() > Duration::from_secs(60) {
                 timed_out = 1;
                 break 'rounds;
             }
@@ -247,7 +247,7 @@ fn run_wakeup(scn: &Value) {
         while done.load(Ordering::Acquire) < round {
             std::hint::spin_loop();
         }
-        if t0.elapsed() > Duration::from_secs(20) {
+        if t0.elapsed() > Duration::from_secs(60) {
             timed_out = 1;
             break;
         }
@@ -258,8 +258,114 @@ fn run_wakeup(scn: &Value) {
                         "in_order": 1, "closed": 1, "bound": -1, "timed_out": timed_out}));
 }
 
+/// kinds "pingdrop" / "chandrop": every round makes a fresh ping (channel), hands one clone of its handle (sender) to each
+/// of three persistent worker threads and keeps one; at the signal all four drop theirs at the same moment.  Once every
+/// drop has returned, one dispatch(ZERO) - a second one is granted - must have removed the ping source (delivered the
+/// channel's single Closed): the last handle to go writes the close marker, whoever that is.
+fn run_drops(scn: &Value, chan: bool) {
+    use std::sync::Mutex;
+    const K: usize = 3;
+    let rounds = scn["rounds"].as_u64().unwrap_or(5000);
+    let mut el: EventLoop<'static, (u64, u64)> = EventLoop::try_new().unwrap();
+    let handle = el.handle();
+    let go = Arc::new(AtomicU64::new(0));
+    let done = Arc::new(AtomicU64::new(0));
+    let stop = Arc::new(AtomicBool::new(false));
+    let slots: Vec<Arc<Mutex<Option<Box<dyn Send>>>>> = (0..K).map(|_| Arc::new(Mutex::new(None))).collect();
+    let mut ths = Vec::new();
+    for i in 0..K {
+        let (go2, done2, stop2, slot) = (go.clone(), done.clone(), stop.clone(), slots[i].clone());
+        ths.push(std::thread::spawn(move || {
+            let mut round = 0u64;
+            let mut x = 0x9E3779B97F4A7C15u64 ^ (i as u64 + 1);
+            loop {
+                while go2.load(Ordering::Acquire) <= round {
+                    if stop2.load(Ordering::Acquire) {
+                        return;
+                    }
+                    std::hint::spin_loop();
+                }
+                round += 1;
+                let mine = slot.lock().unwrap().take();
+                x ^= x << 13;
+                x ^= x >> 7;
+                x ^= x << 17;
+                for _ in 0..(x % 40) {
+                    std::hint::spin_loop();
+                }
+                drop(mine);
+                done2.fetch_add(1, Ordering::AcqRel);
+            }
+        }));
+    }
+    let mut data = (0u64, 0u64);
+    let (mut stranded, mut errs, mut run, mut timed_out) = (-1i64, 0, 0u64, 0u8);
+    let t0 = Instant::now();
+    'rounds: for round in 1..=rounds {
+        let closed_before = data.1;
+        let own: Box<dyn Send>;
+        let token;
+        if chan {
+            let (tx, rx) = channel::<u64>();
+            token = handle
+                .insert_source(rx, |e, &mut (), d: &mut (u64, u64)| match e {
+                    Event::Msg(_) => d.0 += 1,
+                    Event::Closed => d.1 += 1,
+                })
+                .unwrap();
+            // one message first: its ping is consumed, nothing is pending when the senders go
+            let _ = tx.send(round);
+            let _ = el.dispatch(Some(Duration::ZERO), &mut data);
+            for s in &slots {
+                *s.lock().unwrap() = Some(Box::new(tx.clone()));
+            }
+            own = Box::new(tx);
+        } else {
+            let (ping, src) = calloop::ping::make_ping().unwrap();
+            token = handle.insert_source(src, |(), &mut (), d: &mut (u64, u64)| d.0 += 1).unwrap();
+            ping.ping();
+            let _ = el.dispatch(Some(Duration::ZERO), &mut data);
+            for s in &slots {
+                *s.lock().unwrap() = Some(Box::new(ping.clone()));
+            }
+            own = Box::new(ping);
+        }
+        go.store(round, Ordering::Release);
+        for _ in 0..(round % 37) {
+            std::hint::spin_loop();
+        }
+        drop(own);
+        while done.load(Ordering::Acquire) < round * K as u64 {
+            if t0.elapsed() > Duration::from_secs(30) {
+                timed_out = 1;
+                break 'rounds;
+            }
+            std::hint::spin_loop();
+        }
+        for _ in 0..2 {
+            if el.dispatch(Some(Duration::ZERO), &mut data).is_err() {
+                errs += 1;
+            }
+        }
+        run = round;
+        let over = if chan { data.1 == closed_before + 1 } else { handle.update(&token).is_err() };
+        if !over {
+            stranded = round as i64;
+            break;
+        }
+    }
+    stop.store(true, Ordering::Release);
+    for th in ths {
+        let _ = th.join();
+    }
+    ev("hammer", json!({"id": scn["id"], "kind": if chan { "chandrop" } else { "pingdrop" }, "rounds": run, "stranded_round": stranded,
+                        "received": data.0, "errs": errs, "in_order": 1, "closed": data.1, "bound": -1, "timed_out": timed_out}));
+}
+
 fn run_scenario(scn: &Value) {
     match scn["kind"].as_str().unwrap_or("chan") {
+        "pingdrop" => return run_drops(scn, false),
+        "chandrop" => return run_drops(scn, true),
         "wakeup" => return run_wakeup(scn),
         "ping" => return run_ping(scn),
         "exec" => return run_exec(scn),
@@ -332,7 +438,7 @@ fn run_scenario(scn: &Value) {
             if el.dispatch(Some(Duration::ZERO), &mut data).is_err() {
                 errs += 1;
             }
-            if t0.elapsed() > Duration::from_secs(20) {
+            if t0.elapsed() > Duration::from_secs(60) {
                 // machine too slow: stop without judging the round in progress
                 timed_out = 1;
                 break 'rounds;
